@@ -42,3 +42,22 @@ package utils
 //@ func NextLine(b) line, rest, err
 //@   props C03
 //@   ensures err == nil ==> sameArray(rest, b) && off(rest) > off(b) && off(rest) + len(rest) == off(b) + len(b) && sameArray(line, b) && off(line) == off(b) && len(line) < off(rest) - off(b)
+
+// CleanPath (C07, safety slice): no index leaves the string or the lazily created buffer, for every input.
+// lead: 1 when a slash is prepended (p does not start with one). The write position never overtakes the read
+// position (shifted by lead), and once the input is exhausted with a pending trailing slash there is room for it.
+//@ macro cpLead(p) = ite(p[0] == '/', 0, 1)
+//@ func bufApp(buf, s, w, c)
+//@   requires buf != nil && 0 <= w && w < len(s) + 1 && (len(*buf) == 0 ==> w < len(s) && cap(*buf) >= 0) && (len(*buf) != 0 ==> w < len(*buf))
+//@   modifies *buf, mem
+//@   allocates
+//@   ensures len(*buf) == 0 || len(*buf) == old(len(*buf)) || (old(len(*buf)) == 0 && len(*buf) == len(s))
+
+//@ func CleanPath(p) r
+//@   allocates
+//@   loop 0:
+//@     invariant 0 <= r && r <= n && n == len(p) && 1 <= w && w <= r + cpLead(p) && (r == 0 ==> cpLead(p) == 1)
+//@     invariant len(buf) == 0 || len(buf) == n + cpLead(p)
+//@     invariant cpLead(p) == 1 ==> len(buf) == n + 1
+//@     invariant trailing && r == n ==> w < n + cpLead(p)
+
